@@ -336,6 +336,11 @@ func (u *upstream) handleRedirection(req *simpleRequest, resp *RespValue) {
 		))
 		u.MakeRequestToHost(hostAddr, askingReq)
 		u.MakeRequestToHost(hostAddr, req)
+	default:
+		// the caller matches the prefix with Unicode case folding ("a\u017fk" folds
+		// to "ask" but does not lower-case to it): never leave the request unanswered.
+		req.SetResponse(resp)
+		return
 	}
 	u.triggerSlotsRefresh()
 }
